@@ -15,12 +15,20 @@
 #include <cstdlib>
 #include <cstddef>
 #include <sys/uio.h>
+#include <sys/socket.h>
+#include <fcntl.h>
+#include <poll.h>
+#include <unistd.h>
 #include <algorithm>
 #include "meta.h"
 #include "types.h"
 #include "message.h"
 #include "output.h"
 #include "event.h"
+#include "convert.h"
+#include "connection.h"
+#include "notify.h"
+#include "stream.h"
 #include "mc.hpp"
 
 using namespace mc;
@@ -28,7 +36,8 @@ const char *mc_id = "C12";
 const char *mc_rule = "part A: DFS grid width 0..9 x id set (0, 2^k-1, 2^k, 2^k+1, all ids < 2^16 (thorough 2^18), all ids with <= 2 (thorough 3) non-zero bytes from {01,7f,80,ff}) x {id pointer, NULL}; "
                       "nontrivial = id occupies the most significant header byte or does not fit. "
                       "part B: BFS over histories of arm/reply/context_reply/defer/handle reply/handle release/addref/unref x transport accepts|rejects on a fresh mpt_reply_deferrable context, "
-                      "canonical-state dedupe; nontrivial = distinct (history, op) steps executed while a request is deferred, was rejected by the transport before, or a second request exists";
+                      "canonical-state dedupe; nontrivial = distinct (history, op) steps executed while a request is deferred, was rejected by the transport before, or a second request exists. "
+                      "part C: DFS over 1..2 requests x {zero id, id} x 7 handler scripts x 2 open modes x {one by one, queued together} through mpt_stream_input on a socketpair; nontrivial = two requests or a script other than none/reply";
 
 // =====================================================================
 // Part A
@@ -436,6 +445,162 @@ static int transport(void *ptr, const mpt::reply_data *rd, const mpt::message *m
 	return g_sys->on_send(ptr, rd, msg);
 }
 
+
+// =====================================================================
+// Part C: the same promise on the stream input (stream_input.c: streamMessage / streamReply / mpt_stream_reply),
+// driven over an AF_UNIX socketpair; the oracle reads the peer's end of the wire.
+// =====================================================================
+// struct streamInput (file-local in stream_input.c)
+struct SMirror { const void *in_vptr; uintptr_t ref; mpt::stream data; const void *rc_vptr; uint16_t max, len; uint8_t val[4]; };
+
+enum Script { S_NONE, S_REPLY, S_REPLY_TWICE, S_BUSY, S_BUSY_RETRY, S_DEFER, S_CREPLY, S_NSCRIPT };
+static const char *scriptnm[] = {"no answer", "reply(msg)", "reply(msg) twice", "reply(msg) while an outgoing message is open", "reply(msg) while busy, finish message, retry", "defer() then no answer", "mpt_context_reply"};
+
+struct SReq { std::vector<uint8_t> id; bool wants; int script; int r1, r2; bool handled, had_ctx, deferred_handle; int onwire; };
+struct SCase { Run *r; int idlen; std::vector<SReq> rq; size_t next; SMirror *sm; bool layout_bad; bool busy_left; };
+
+static std::vector<uint8_t> cobs(const std::vector<uint8_t> &in)
+{
+	std::vector<uint8_t> out; size_t code_at = 0; out.push_back(0); uint8_t code = 1;
+	for (uint8_t b : in) {
+		if (b) { out.push_back(b); if (++code == 0xff) { out[code_at] = code; code_at = out.size(); out.push_back(0); code = 1; } }
+		else { out[code_at] = code; code_at = out.size(); out.push_back(0); code = 1; }
+	}
+	out[code_at] = code; out.push_back(0);
+	return out;
+}
+static bool uncobs(const uint8_t *p, size_t n, std::vector<uint8_t> &out)
+{
+	size_t i = 0;
+	while (i < n) {
+		uint8_t c = p[i++]; if (!c || i + c - 1 > n) return false;
+		out.insert(out.end(), p + i, p + i + c - 1); i += c - 1;
+		if (c != 0xff && i < n) out.push_back(0);
+	}
+	return true;
+}
+static int stream_handler(void *arg, mpt::event *ev)
+{
+	SCase &c = *(SCase *) arg;
+	if (c.next >= c.rq.size()) return 0;
+	SReq &q = c.rq[c.next++];
+	q.handled = true;
+	mpt::reply_context *rc = ev->reply;
+	q.had_ctx = rc != 0;
+	if (!rc) return 0;
+	if ((void *) rc != (void *) &c.sm->rc_vptr || c.sm->max != c.idlen) { c.layout_bad = true; return 0; }
+	mpt::msgtype hdr(mpt::msgtype::Answer, 0);
+	mpt::message m(&hdr, sizeof(hdr));
+	switch (q.script) {
+	case S_REPLY: q.r1 = LIB(rc->reply(&m)); break;
+	case S_REPLY_TWICE: q.r1 = LIB(rc->reply(&m)); q.r2 = LIB(rc->reply(&m)); break;
+	case S_BUSY: LIB(mpt::mpt_stream_push(&c.sm->data, 2, "zz")); q.r1 = LIB(rc->reply(&m)); c.busy_left = true; break;
+	case S_BUSY_RETRY: LIB(mpt::mpt_stream_push(&c.sm->data, 2, "zz")); q.r1 = LIB(rc->reply(&m)); LIB(mpt::mpt_stream_push(&c.sm->data, 0, 0)); q.r2 = LIB(rc->reply(&m)); break;
+	case S_DEFER: q.deferred_handle = LIB(rc->defer()) != 0; break;
+	case S_CREPLY: q.r1 = LIB(mpt::mpt_context_reply(rc, 3, "%s", "text")); break;
+	}
+	return 0;
+}
+static void stream_case(Run &r, Ctx &x, int idlen)
+{
+	SCase c; c.r = &r; c.idlen = idlen; c.next = 0; c.sm = 0; c.layout_bad = false; c.busy_left = false;
+	bool enc_mode = x.choose(2) != 0;               // 0: RdWr|Buffer as every caller in the tree passes it; 1: Write|RdWr|Buffer (installs the output encoder)
+	size_t n = 1 + x.choose(2);
+	for (size_t k = 0; k < n; ++k) {
+		SReq q; q.wants = x.choose(2) == 0; q.script = (int) x.choose(S_NSCRIPT); q.r1 = q.r2 = 1; q.handled = q.had_ctx = q.deferred_handle = false; q.onwire = 0;
+		q.id.assign(idlen, 0);
+		if (q.wants) { for (int i = 0; i < idlen; ++i) q.id[i] = (uint8_t) (0x11 * (i + 1) + k); q.id[0] = idlen > 1 ? (k ? 0x7f : 0x00) : (uint8_t) (k ? 0x7e : 0x01); q.id[idlen - 1] = idlen > 1 ? (uint8_t) (5 + k) : q.id[0]; }
+		c.rq.push_back(q);
+	}
+	bool together = n > 1 && x.choose(2) != 0;
+	std::string desc = fmt("stream input idlen=%d mode=%s%s:", idlen, enc_mode ? "Write|RdWr|Buffer" : "RdWr|Buffer", together ? " both requests queued before dispatch" : "");
+	for (auto &q : c.rq) desc += " [id " + hex(q.id.data(), idlen) + ", handler: " + scriptnm[q.script] + "]";
+	r.note("%s", desc.c_str());
+	++r.transitions;
+	int sv[2];
+	if (socketpair(AF_UNIX, SOCK_STREAM, 0, sv) < 0) { r.incomplete("socketpair failed"); return; }
+	fcntl(sv[0], F_SETFL, O_NONBLOCK); fcntl(sv[1], F_SETFL, O_NONBLOCK);
+	ledger_reset(); asan_error();
+	r.hint("stream.dispatch");
+	mpt::socket sock; sock._id = sv[0];
+	mpt::input *in = LIB(mpt::mpt_stream_input(&sock, (enc_mode ? 0x3 : mpt::stream::RdWr) | mpt::stream::Buffer, mpt::EncodingCobs, idlen));
+	if (!in) { close(sv[0]); close(sv[1]); r.incomplete("mpt_stream_input failed"); return; }
+	c.sm = (SMirror *) in;
+	auto send = [&](const SReq &q) { std::vector<uint8_t> m(q.id); m.push_back('r'); m.push_back('q'); std::vector<uint8_t> e = cobs(m); return write(sv[1], e.data(), e.size()) == (ssize_t) e.size(); };
+	auto pump = [&]() {
+		for (int guard = 0; guard < 8; ++guard) {
+			LIB(in->next(POLLIN));
+			int ret = LIB(in->dispatch(stream_handler, &c));
+			if (c.busy_left) { LIB(mpt::mpt_stream_push(&c.sm->data, 0, 0)); c.busy_left = false; }   // the handler's own message ends after the dispatch
+			if (ret < 0 || !(ret & mpt::event::Retry)) break;
+		}
+	};
+	bool ok = true;
+	if (together) { for (auto &q : c.rq) ok = ok && send(q); pump(); }
+	else for (auto &q : c.rq) { ok = ok && send(q); pump(); }
+	LIB(mpt::mpt_stream_flush(&c.sm->data));
+	bool has_enc = c.sm->data._wd._enc != 0;
+	uint8_t wire[4096]; ssize_t got = read(sv[1], wire, sizeof wire); if (got < 0) got = 0;
+	LIB(in->unref());
+	close(sv[1]);
+	bool mem = asan_error();
+	size_t leaked = ledger_live();
+	if (!ok || c.layout_bad) { r.incomplete(c.layout_bad ? "struct streamInput layout differs from the harness mirror" : "short write on the socketpair"); return; }
+	if (mem) { r.violation("stream.dispatch|any|memory", desc + " invalid memory access (AddressSanitizer)"); return; }
+	// split the wire into messages
+	std::vector<std::vector<uint8_t>> msgs; bool garbled = false;
+	for (ssize_t i = 0, b = 0; i < got; ++i) {
+		if (wire[i] != (has_enc ? 0x00 : 0x0a)) continue;
+		std::vector<uint8_t> m;
+		if (has_enc) { if (!uncobs(wire + b, i - b, m)) garbled = true; } else m.assign(wire + b, wire + i);
+		msgs.push_back(m); b = i + 1;
+	}
+	std::string wtxt = " wire: " + hex(wire, got);
+	for (auto &m : msgs) {
+		if (m.size() == 2 && m[0] == 'z' && m[1] == 'z') continue;       // the handler's own outgoing message
+		if ((int) m.size() < idlen) { r.violation("stream.reply|any|unknown-id", desc + " message shorter than an id on the wire;" + wtxt); return; }
+		std::vector<uint8_t> id(m.begin(), m.begin() + idlen);
+		bool marked = id[0] & 0x80; id[0] &= 0x7f;
+		SReq *hit = 0;
+		for (auto &q : c.rq) if (q.wants && q.id == id) hit = &q;
+		if (!hit) { r.violation("stream.reply|any|unknown-id", desc + " reply id " + hex(m.data(), idlen) + " belongs to no request that asked for a reply;" + wtxt); return; }
+		if (!marked) { r.violation(std::string("stream.reply|") + (hit->script == S_NONE || hit->script == S_DEFER ? "default" : "explicit") + "|reply-marker-missing", desc + " reply id " + hex(m.data(), idlen) + " is the request id without the reply bit;" + wtxt); return; }
+		if (++hit->onwire > 1) { r.violation("stream.reply|answered|second-reply-accepted", desc + " two replies for request id " + hex(hit->id.data(), idlen) + ";" + wtxt); return; }
+	}
+	bool nontriv = n > 1;
+	for (auto &q : c.rq) {
+		if (!q.handled) { r.count("stream: request not delivered to the handler (not flagged)"); continue; }
+		if (!q.wants) { r.count(q.had_ctx ? "stream: zero id got a reply context (not flagged)" : "stream: zero id, no reply context, nothing sent"); continue; }
+		if (!q.had_ctx) { r.count("stream: no reply context offered (not flagged)"); continue; }
+		if (q.script != S_NONE && q.script != S_REPLY) nontriv = true;
+		switch (q.script) {
+		case S_NONE: case S_DEFER:
+			if (!q.onwire) { r.violation("stream.dispatch|armed|no-default-reply", desc + " handler left id " + hex(q.id.data(), idlen) + " unanswered, transport idle: no default reply on the wire;" + wtxt); return; }
+			r.count(q.script == S_NONE ? "stream: unanswered request got exactly one default reply" : "stream: defer unsupported (NULL), one default reply");
+			if (q.deferred_handle) r.count("stream: defer returned a handle (not flagged)");
+			break;
+		case S_REPLY: case S_CREPLY:
+			if (q.r1 >= 0 && q.onwire) r.count(q.script == S_REPLY ? "stream: explicit reply on the wire once, marked" : "stream: mpt_context_reply on the wire once, marked");
+			else if (q.r1 >= 0) r.count("stream: accepted reply missing on the wire (not flagged)");
+			break;
+		case S_REPLY_TWICE:
+			if (q.r1 >= 0 && q.r2 >= 0) { r.violation("stream.reply|answered|further-attempt-not-refused", desc + fmt(" second reply() after an accepted one returned %d;", q.r2) + wtxt); return; }
+			if (q.r1 >= 0 && q.onwire == 1) r.count("stream: second reply attempt refused, one reply on the wire");
+			break;
+		case S_BUSY:
+			if (q.r1 < 0) r.count(q.onwire ? "stream: busy transport rejected, default reply sent later" : "stream: busy transport rejected reply and default reply");
+			break;
+		case S_BUSY_RETRY:
+			if (!q.onwire) { r.violation("stream.reply|armed,rejected-before|retry-not-sent", desc + fmt(" reply rejected while busy (%d), retry returned %d: nothing on the wire;", q.r1, q.r2) + wtxt); return; }
+			if (q.r1 < 0 && q.r2 >= 0) r.count("stream: retry after busy transport accepted, one reply on the wire");
+			break;
+		}
+	}
+	if (garbled) r.count("stream: undecodable bytes on the wire (not flagged)");
+	if (leaked) { r.violation("stream.release|all-released|leak", desc + fmt(" %zu block(s) still allocated after the input was released", leaked)); return; }
+	if (nontriv) r.count("nontrivial");
+	++r.states;
+}
 // =====================================================================
 static const int quick_idlen[] = {1, 2, 4, 5, 8};
 static const int thorough_idlen[] = {1, 2, 3, 4, 5, 8, 9, 16, 255};
@@ -444,6 +609,7 @@ void mc_jobs(Tier t, std::vector<std::string> &jobs)
 	if (t == Quick) for (int l : quick_idlen) for (int tg = 1; tg >= 0; --tg) jobs.push_back(fmt("proto:idlen=%d:target=%d", l, tg));
 	else for (int l : thorough_idlen) for (int tg = 1; tg >= 0; --tg) jobs.push_back(fmt("proto:idlen=%d:target=%d", l, tg));
 	for (int w = 0; w <= 9; ++w) jobs.push_back(fmt("ids:w=%d", w));
+	for (int l : {1, 2, 4, 5, 8}) jobs.push_back(fmt("stream:idlen=%d", l));
 }
 static int proto_setup(Tier t, const std::string &job)
 {
@@ -452,9 +618,6 @@ static int proto_setup(Tier t, const std::string &job)
 	g_idlen = l; g_target = tg != 0;
 	// quick: two requests (three for two of the jobs), two metatype references; thorough: four requests, three references
 	g_R = t == Quick ? ((l == 1 || l == 5) && tg ? 3 : 2) : 4; g_maxref = t == Quick ? 2 : 3;
-	if (getenv("C12_R")) g_R = atoi(getenv("C12_R"));            // development only: bound experiments
-	if (getenv("C12_REFS")) g_maxref = atoi(getenv("C12_REFS"));
-	if (getenv("C12_DEPTH")) return atoi(getenv("C12_DEPTH"));
 	return t == Quick ? 16 : 24;
 }
 static void id_body(Run &r, ACnt &c, const std::string &job, const std::vector<uint64_t> &ids, Ctx &x)
@@ -490,6 +653,16 @@ void mc_explore(Run &r, const std::string &job)
 		if (w == 9) r.require("ids: 9-byte header above 2^64 refused by decoder");
 		return;
 	}
+	if (job.compare(0, 7, "stream:") == 0) {
+		int l = atoi(job.c_str() + 13);
+		static const char *need[] = {"stream: unanswered request got exactly one default reply", "stream: explicit reply on the wire once, marked", "stream: mpt_context_reply on the wire once, marked",
+			"stream: second reply attempt refused, one reply on the wire", "stream: retry after busy transport accepted, one reply on the wire", "stream: zero id, no reply context, nothing sent",
+			"stream: defer unsupported (NULL), one default reply"};
+		for (const char *k : need) r.require(k);
+		if (l == 2) r.sample("stream input idlen=2: 1..2 COBS requests over a socketpair x handler scripts {no answer, reply, reply twice, reply while busy, busy+retry, defer, mpt_context_reply}; replies read back from the peer's end");
+		dfs(r, [&](Ctx &x) { stream_case(r, x, l); });
+		return;
+	}
 	int depth = proto_setup(r.tier, job);
 	static const char *need_t[] = {"armed", "reply accepted", "reply rejected by transport", "retry after rejected send accepted", "deferred", "deferred reply accepted",
 		"deferred reply rejected by transport, handle kept", "deferred retry after rejected send accepted", "handle released: one default reply accepted",
@@ -514,6 +687,7 @@ void mc_replay(Run &r, const std::string &job, const Vec &v)
 		dfs_replay(r, [&](Ctx &x) { id_body(r, c, job, ids, x); }, v);
 		return;
 	}
+	if (job.compare(0, 7, "stream:") == 0) { int l = atoi(job.c_str() + 13); dfs_replay(r, [&](Ctx &x) { stream_case(r, x, l); }, v); return; }
 	proto_setup(r.tier, job);
 	bfs_replay<Sys>(r, v);
 }
